@@ -691,8 +691,9 @@ cmd_json(const char *tag, int start_ms, int level)
 
 /* ---- C02: everything a declarative Viterbi network needs, as plain tables ----------------------------
  * The search's own grammar (silence/alternate arcs added, nulls closed) through the public arc iterator, the
- * dictionary pronunciations, and - for the phones that occur - the context-dependent model lookups through the
- * dict2pid / model-definition tables (NOT read from the lextree, which is what is being checked):
+ * dictionary pronunciations, and - for the phones that occur - the context-dependent model of every (phone,
+ * left, right, word position) looked up in the MODEL DEFINITION itself (bin_mdef_phone_id_nearest), NOT read
+ * from the lextree nor from the dict2pid tables the lextree is built from, which are what is being checked:
  *   ldiph[w][lc]   model of the first phone of multi-phone word w after left context lc
  *   rssid[w][rc]   model of its last phone before right context rc
  *   lrdiph[w][lc]  model of one-phone word w after lc (right context silence, the decoder's documented choice)
@@ -701,14 +702,23 @@ cmd_json(const char *tag, int start_ms, int level)
 static void
 cmd_net(void)
 {
-    fsg_search_t *fs = (fsg_search_t *)d->search;
-    fsg_model_t *fsg = fs->fsg;
-    bin_mdef_t *m = d->acmod->mdef;
-    dict2pid_t *d2p = d->d2p;
-    int nci = bin_mdef_n_ciphone(m), sil = bin_mdef_ciphone_id(m, "SIL");
-    int i, w, k, first = 1, ne = bin_mdef_n_emit_state(m);
-    unsigned char *ssused = (unsigned char *)calloc(bin_mdef_n_sseq(m) + 1, 1);
-    unsigned char *tmused = (unsigned char *)calloc(d->acmod->tmat->n_tmat + 1, 1);
+    fsg_search_t *fs = d ? (fsg_search_t *)d->search : NULL;
+    fsg_model_t *fsg;
+    bin_mdef_t *m;
+    int nci, sil, i, w, k, first = 1, ne;
+    unsigned char *ssused, *tmused;
+
+    if (fs == NULL) { /* no grammar was accepted: nothing to describe (the script is at fault, not the library) */
+        fprintf(stderr, "dec_drv: net: no active grammar\n");
+        exit(3);
+    }
+    fsg = fs->fsg;
+    m = d->acmod->mdef;
+    nci = bin_mdef_n_ciphone(m);
+    sil = bin_mdef_ciphone_id(m, "SIL");
+    ne = bin_mdef_n_emit_state(m);
+    ssused = (unsigned char *)calloc(bin_mdef_n_sseq(m) + 1, 1);
+    tmused = (unsigned char *)calloc(d->acmod->tmat->n_tmat + 1, 1);
 
     fprintf(vt_out, "{\"e\":\"Net\",\"n\":%d,\"start\":%d,\"final\":%d,\"sil\":%d,\"nci\":%d,\"pip\":%d,\"wip\":%d,\"arcs\":[",
             fsg_model_n_state(fsg), fsg_model_start_state(fsg), fsg_model_final_state(fsg), sil, nci, (int)fs->pip, (int)fs->wip);
@@ -752,7 +762,7 @@ cmd_net(void)
         if (np == 1) {
             fprintf(vt_out, ",\"lrdiph\":[");
             for (k = 0; k < nci; ++k) {
-                int ss = dict2pid_lrdiph_rc(d2p, dict_pron(d->dict, wid, 0), k, sil);
+                int ss = bin_mdef_pid2ssid(m, bin_mdef_phone_id_nearest(m, dict_pron(d->dict, wid, 0), k, sil, WORD_POSN_SINGLE));
                 ssused[ss] = 1;
                 fprintf(vt_out, "%s%d", k ? "," : "", ss);
             }
@@ -761,22 +771,22 @@ cmd_net(void)
         }
         fprintf(vt_out, ",\"ldiph\":[");
         for (k = 0; k < nci; ++k) {
-            int ss = dict2pid_ldiph_lc(d2p, dict_pron(d->dict, wid, 0), dict_pron(d->dict, wid, 1), k);
+            int ss = bin_mdef_pid2ssid(m, bin_mdef_phone_id_nearest(m, dict_pron(d->dict, wid, 0), k, dict_pron(d->dict, wid, 1),
+                                                                    WORD_POSN_BEGIN));
             ssused[ss] = 1;
             fprintf(vt_out, "%s%d", k ? "," : "", ss);
         }
         fprintf(vt_out, "],\"rssid\":[");
-        {
-            xwdssid_t *rs = dict2pid_rssid(d2p, dict_pron(d->dict, wid, np - 1), dict_pron(d->dict, wid, np - 2));
-            for (k = 0; k < nci; ++k) {
-                int ss = rs->ssid[rs->cimap[k]];
-                ssused[ss] = 1;
-                fprintf(vt_out, "%s%d", k ? "," : "", ss);
-            }
+        for (k = 0; k < nci; ++k) {
+            int ss = bin_mdef_pid2ssid(m, bin_mdef_phone_id_nearest(m, dict_pron(d->dict, wid, np - 1), dict_pron(d->dict, wid, np - 2), k,
+                                                                    WORD_POSN_END));
+            ssused[ss] = 1;
+            fprintf(vt_out, "%s%d", k ? "," : "", ss);
         }
         fprintf(vt_out, "],\"internal\":[");
         for (k = 1; k < np - 1; ++k) {
-            int ss = dict2pid_internal(d2p, wid, k);
+            int ss = bin_mdef_pid2ssid(m, bin_mdef_phone_id_nearest(m, dict_pron(d->dict, wid, k), dict_pron(d->dict, wid, k - 1),
+                                                                    dict_pron(d->dict, wid, k + 1), WORD_POSN_INTERNAL));
             ssused[ss] = 1;
             fprintf(vt_out, "%s%d", k > 1 ? "," : "", ss);
         }
